@@ -15,7 +15,7 @@ Out(p) ==
     [name |-> p.name,
      inv |-> [i \in DOMAIN jobs |->
                 [jobs[i] EXCEPT !.deps = SetToSeq(jobs[i].deps)]],
-     outs |-> VObj(r.outs), weak |-> r.wk, files |-> FileFacts(p, r)]
+     outs |-> TopValue(p, r), weak |-> r.wk, files |-> FileFacts(p, r)]
 
 ASSUME ndJsonSerialize("sem_out.ndjson", [i \in DOMAIN Progs |-> Out(Progs[i])])
 ===========================================================================
